@@ -318,15 +318,19 @@ impl CodeFormatter {
 
                 if let Some(tag_else) = tag_else {
                     match self.options.braces.position {
+                        // (of the trivia in front of 'else' only the comments are kept: the line breaks around it
+                        // are the formatter's to decide, and keeping the source's would add one on every run)
                         BracePosition::SameLine => {
                             self.push(" ")
-                                .fmt(tag_else.as_ref())
+                                .comments_of(&tag_else.trivia)
+                                .push(&tag_else.data)
                                 .push(" ")
                                 .fmt(else_.as_ref().unwrap());
                         }
                         BracePosition::NewLine => {
                             self.push("\n")
-                                .fmt(tag_else.as_ref())
+                                .comments_of(&tag_else.trivia)
+                                .push(&tag_else.data)
                                 .fmt(else_.as_ref().unwrap());
                         }
                     }
